@@ -184,3 +184,556 @@ Lemma purge_old_leaves_frame :
   purge_old 1 (frames_of (Some 0) 0 1 ++ frames_of (Some 1) 1 2 ++ frames_of None 2 1)
   = Ok [(Some 0, (0, 0)); (Some 0, (0, 1)); (Some 1, (1, 1)); (None, (2, 0)); (None, (2, 1))].
 Proof. reflexivity. Qed.
+
+(** ** the invariant is inductive *)
+Arguments cnt : simpl never.
+
+Definition inv_num (it : bool) (rc ri lr lt : nat) (e : emit) : Prop :=
+  b2n it + isEReg (e_pc e) + rc + ri + lr <= 1
+  /\ b2n (e_called e) = ri + lr
+  /\ b2n (e_timedOut e) = phase_to (e_timer e)
+  /\ lt = fired (e_timer e)
+  /\ b2n (e_called e) + b2n (e_timedOut e) <= 1
+  /\ skipped (e_timer e) <= b2n (e_called e).
+
+Lemma inv_id_num s id e :
+  inv_id s id e <-> inv_num (e_intable e) (nRC s id) (nRI s id) (nLR s id) (nLT s id) e.
+Proof. reflexivity. Qed.
+
+Lemma cnt_ge1 {A} (p : A -> bool) l k x : nth_error l k = Some x -> p x = true -> 1 <= cnt p l.
+Proof.
+  revert k; induction l as [|z l IH]; intros [|k] H Hp; simpl in H; try discriminate.
+  - inversion H; subst. rewrite cnt_cons, Hp. simpl. lia.
+  - rewrite cnt_cons. specialize (IH k H Hp). lia.
+Qed.
+
+Lemma upd_nth_id {A} k (x : A) l : nth_error l k = Some x -> upd_nth k x l = l.
+Proof.
+  revert k; induction l as [|z l IH]; intros [|k] H; simpl in *; try discriminate; auto.
+  - now inversion H.
+  - f_equal. now apply IH.
+Qed.
+
+(** only the entry [id0] and the counts of [id0] change *)
+Lemma inv_update s s' id0 e0 e' :
+  inv s -> get_emit s id0 = Some e0 ->
+  st_emits s' = upd_nth id0 e' (st_emits s) ->
+  (forall id, id <> id0 ->
+     nRC s' id = nRC s id /\ nRI s' id = nRI s id /\ nLR s' id = nLR s id /\ nLT s' id = nLT s id) ->
+  (inv_num (e_intable e0) (nRC s id0) (nRI s id0) (nLR s id0) (nLT s id0) e0 ->
+   inv_num (e_intable e') (nRC s' id0) (nRI s' id0) (nLR s' id0) (nLT s' id0) e') ->
+  inv s'.
+Proof.
+  intros [H1 H2] Hg He Hoth Hnum. pose proof (get_lt _ _ _ Hg) as Hlt. split.
+  - intros id e Hge. unfold get_emit in Hge. rewrite He in Hge.
+    destruct (Nat.eq_dec id id0) as [->|Hne].
+    + rewrite nth_upd_same in Hge by exact Hlt. inversion Hge; subst.
+      apply inv_id_num, Hnum, inv_id_num, H1, Hg.
+    + rewrite nth_upd_other in Hge by exact Hne.
+      destruct (Hoth id Hne) as (A & B & C & D).
+      apply inv_id_num. rewrite A, B, C, D. apply inv_id_num, H1, Hge.
+  - intros id Hle. rewrite He, length_upd_nth in Hle.
+    assert (Hne : id <> id0) by lia.
+    destruct (Hoth id Hne) as (A & B & C & D). rewrite A, B, C, D. now apply H2.
+Qed.
+
+(** nothing the invariant looks at changes *)
+Lemma inv_same s s' :
+  inv s -> st_emits s' = st_emits s ->
+  (forall id, nRC s' id = nRC s id /\ nRI s' id = nRI s id /\ nLR s' id = nLR s id /\ nLT s' id = nLT s id) ->
+  inv s'.
+Proof.
+  intros [H1 H2] He Hc. split.
+  - intros id e Hg. unfold get_emit in Hg. rewrite He in Hg.
+    destruct (Hc id) as (A & B & C & D). apply inv_id_num. rewrite A, B, C, D. apply inv_id_num, H1, Hg.
+  - intros id Hle. rewrite He in Hle. destruct (Hc id) as (A & B & C & D). rewrite A, B, C, D. now apply H2.
+Qed.
+
+Lemma send_frames_core s fs s1 :
+  send_frames s fs = Some s1 ->
+  st_emits s1 = st_emits s /\ st_replies s1 = st_replies s /\ st_log s1 = st_log s.
+Proof.
+  unfold send_frames. destruct (st_conn s || negb (c_client (st_cfg s))).
+  - intros H; inversion H; subst. auto.
+  - destruct (st_bufmu s); [discriminate|]. intros H; inversion H; subst. auto.
+Qed.
+
+Ltac counts_same :=
+  intros; unfold nRC, nRI, nLR, nLT; simpl; auto.
+
+(** a new entry is appended *)
+Lemma inv_append s s' e :
+  inv s -> st_emits s' = st_emits s ++ [e] -> st_replies s' = st_replies s -> st_log s' = st_log s ->
+  inv_num (e_intable e) 0 0 0 0 e -> inv s'.
+Proof.
+  intros [H1 H2] He Hr Hl Hn.
+  assert (Hc : forall id, nRC s' id = nRC s id /\ nRI s' id = nRI s id /\ nLR s' id = nLR s id /\ nLT s' id = nLT s id).
+  { intros. unfold nRC, nRI, nLR, nLT. rewrite Hr, Hl. auto. }
+  split.
+  - intros id e1 Hg. unfold get_emit in Hg. rewrite He in Hg.
+    destruct (Hc id) as (A & B & C & D). apply inv_id_num. rewrite A, B, C, D.
+    destruct (Nat.lt_ge_cases id (length (st_emits s))) as [Hlt|Hge].
+    + rewrite nth_error_app1 in Hg by exact Hlt. apply inv_id_num, H1, Hg.
+    + rewrite nth_error_app2 in Hg by exact Hge.
+      destruct (id - length (st_emits s)) as [|n] eqn:E; simpl in Hg.
+      * inversion Hg; subst. pose proof (H2 id Hge) as Z.
+        assert (nRC s id = 0 /\ nRI s id = 0 /\ nLR s id = 0 /\ nLT s id = 0) as (Z1 & Z2 & Z3 & Z4) by lia.
+        rewrite Z1, Z2, Z3, Z4. exact Hn.
+      * destruct n; discriminate.
+  - intros id Hle. rewrite He, app_length in Hle. simpl in Hle.
+    destruct (Hc id) as (A & B & C & D). rewrite A, B, C, D. apply H2. lia.
+Qed.
+
+Lemma isLR_reply id i a : isLR id (i, OReply a) = Nat.eqb i id.
+Proof. unfold isLR; simpl. apply andb_true_r. Qed.
+Lemma isLR_timeout id i : isLR id (i, OTimeout) = false.
+Proof. unfold isLR; simpl. apply andb_false_r. Qed.
+Lemma isLT_reply id i a : isLT id (i, OReply a) = false.
+Proof. unfold isLT; simpl. apply andb_false_r. Qed.
+Lemma isLT_timeout id i : isLT id (i, OTimeout) = Nat.eqb i id.
+Proof. unfold isLT; simpl. apply andb_true_r. Qed.
+
+Ltac log_simpl := rewrite ?isLR_reply, ?isLR_timeout, ?isLT_reply, ?isLT_timeout in *.
+
+Ltac unf :=
+  unfold put_reply, put_emit, with_emits, with_npk, with_conn, with_buf, with_bufmu, with_wire,
+    with_replies, with_inflight, with_log, with_plog, with_psent in *.
+
+(** counts of an id other than the one a step touches do not move *)
+Ltac other_counts :=
+  let id := fresh "id" in let Hne := fresh "Hne" in
+  intros id Hne; unf; cnt_norm; log_simpl; simpl in *; eqb_simpl; simpl in *; repeat split; lia.
+
+Ltac num_goal :=
+  let N := fresh "N" in
+  unfold inv_num; intros N; unf; cnt_norm; log_simpl; simpl in *; eqb_simpl; simpl in *;
+  repeat match goal with
+  | H : e_timer _ = _ |- _ => rewrite H in *
+  | H : e_pc _ = _ |- _ => rewrite H in *
+  | H : e_called _ = _ |- _ => rewrite H in *
+  | H : e_timedOut _ = _ |- _ => rewrite H in *
+  | H : e_intable _ = _ |- _ => rewrite H in *
+  end; simpl in *;
+  repeat match goal with
+  | |- context [b2n ?b] => is_var b; destruct b
+  | |- context [b2n (?f ?e)] => destruct (f e)
+  | _ : context [b2n (?f ?e)] |- _ => destruct (f e)
+  end; simpl in *; repeat split; try lia.
+
+Lemma inv_step s l s' : inv s -> step l s = Some s' -> inv s'.
+Proof.
+  intros HI Hs.
+  destruct l as [tmo natt|natt| |id|id|id a|k|id a|k dec| | ]; simpl in Hs.
+  - (* LEmit *)
+    inversion Hs; subst; clear Hs.
+    eapply inv_append; [exact HI | reflexivity | reflexivity | reflexivity |].
+    destruct tmo; unfold inv_num; simpl; repeat split; lia.
+  - (* LEmitNoAck *)
+    destruct (send_frames s (frames_of None (st_npk s) natt)) as [s1|] eqn:E; [|discriminate].
+    inversion Hs; subst; clear Hs. apply send_frames_core in E as (A & B & C).
+    eapply inv_same; [exact HI | simpl; exact A |].
+    intros; unfold nRC, nRI, nLR, nLT; simpl; rewrite B, C; auto.
+  - (* LSkipId *)
+    inversion Hs; subst; clear Hs.
+    eapply inv_append; [exact HI | reflexivity | reflexivity | reflexivity |].
+    unfold inv_num; simpl; repeat split; lia.
+  - (* LEmitStep *)
+    destruct (get_emit s id) as [e|] eqn:G; [|discriminate].
+    destruct (e_pc e) eqn:P; [| |discriminate].
+    + inversion Hs; subst; clear Hs.
+      eapply inv_update; [exact HI | exact G | reflexivity | other_counts | num_goal].
+    + destruct (send_frames s (frames_of (Some id) (e_pk e) (e_natt e))) as [s1|] eqn:E; [|discriminate].
+      inversion Hs; subst; clear Hs. apply send_frames_core in E as (A & B & C).
+      eapply inv_update; [exact HI | exact G | simpl; rewrite A; reflexivity | |].
+      * intros id1 Hne. unfold nRC, nRI, nLR, nLT; simpl; rewrite B, C; auto.
+      * unfold nRC, nRI, nLR, nLT; simpl; rewrite B, C. num_goal.
+  - (* LTimer *)
+    destruct (get_emit s id) as [e|] eqn:G; [|discriminate].
+    destruct (e_timer e) eqn:T; try discriminate.
+    + (* TSleep *)
+      destruct (e_called e) eqn:C; inversion Hs; subst; clear Hs;
+        (eapply inv_update; [exact HI | exact G | reflexivity | other_counts | num_goal]).
+    + (* TDelete *)
+      inversion Hs; subst; clear Hs.
+      eapply inv_update; [exact HI | exact G | reflexivity | other_counts |].
+      destruct (c_client (st_cfg s)); num_goal.
+    + (* TLockBuf *)
+      destruct (st_bufmu s); [discriminate|]. inversion Hs; subst; clear Hs.
+      eapply inv_update; [exact HI | exact G | reflexivity | other_counts | num_goal].
+    + (* TPurge *)
+      destruct (c_oldpurge (st_cfg s)).
+      * destruct (purge_old id (st_buf s)); inversion Hs; subst; clear Hs;
+          (eapply inv_update; [exact HI | exact G | reflexivity | other_counts | num_goal]).
+      * inversion Hs; subst; clear Hs.
+        eapply inv_update; [exact HI | exact G | reflexivity | other_counts | num_goal].
+    + (* TUnlock *)
+      inversion Hs; subst; clear Hs.
+      eapply inv_update; [exact HI | exact G | reflexivity | other_counts | num_goal].
+    + (* TInvoke *)
+      inversion Hs; subst; clear Hs.
+      eapply inv_update; [exact HI | exact G | reflexivity | other_counts | num_goal].
+  - (* LPeerAck *)
+    destruct (get_emit s id) as [e|] eqn:G; [|discriminate].
+    destruct (onwire s id); [|discriminate].
+    destruct (e_psent e) eqn:P; inversion Hs; subst; clear Hs.
+    + eapply inv_same; [exact HI | reflexivity | counts_same].
+    + eapply inv_update; [exact HI | exact G | reflexivity | other_counts | num_goal].
+  - (* LDeliver *)
+    destruct (nth_error (st_inflight s) k) as [[id a]|] eqn:F; [|discriminate].
+    inversion Hs; subst; clear Hs.
+    eapply inv_same; [exact HI | reflexivity |].
+    intros; unf; cnt_norm; simpl; repeat split; lia.
+  - (* LPacketIn *)
+    inversion Hs; subst; clear Hs.
+    eapply inv_same; [exact HI | reflexivity |].
+    intros; unf; cnt_norm; simpl; repeat split; lia.
+  - (* LReply *)
+    destruct (nth_error (st_replies s) k) as [r|] eqn:R; [|discriminate].
+    destruct r as [id a|id a|id a|]; [| | |discriminate].
+    + (* RLookup *)
+      destruct (get_emit s id) as [e|] eqn:G.
+      * destruct (e_intable e) eqn:IT; inversion Hs; subst; clear Hs.
+        -- destruct dec;
+             (eapply inv_update; [exact HI | exact G | reflexivity | other_counts | num_goal]).
+        -- eapply inv_same; [exact HI | reflexivity |].
+           intros; unf; cnt_norm; simpl in *; repeat split; lia.
+      * inversion Hs; subst; clear Hs.
+        eapply inv_same; [exact HI | reflexivity |].
+        intros; unf; cnt_norm; simpl in *; repeat split; lia.
+    + (* RCall *)
+      destruct (get_emit s id) as [e|] eqn:G.
+      * destruct (e_timedOut e) eqn:TO; inversion Hs; subst; clear Hs.
+        -- eapply inv_update; [exact HI | exact G | simpl; symmetry; apply upd_nth_id; exact G | other_counts | num_goal].
+        -- eapply inv_update; [exact HI | exact G | reflexivity | other_counts | num_goal].
+      * exfalso. destruct HI as [_ H2].
+        assert (L : length (st_emits s) <= id).
+        { unfold get_emit in G. apply nth_error_None in G. exact G. }
+        specialize (H2 id L).
+        pose proof (cnt_ge1 (isRC id) _ _ _ R) as Q. simpl in Q. rewrite Nat.eqb_refl in Q.
+        specialize (Q eq_refl). unfold nRC in H2. lia.
+    + (* RInvoke *)
+      inversion Hs; subst; clear Hs.
+      destruct (get_emit s id) as [e|] eqn:G.
+      * eapply inv_update; [exact HI | exact G | simpl; symmetry; apply upd_nth_id; exact G | other_counts | num_goal].
+      * exfalso. destruct HI as [_ H2].
+        assert (L : length (st_emits s) <= id).
+        { unfold get_emit in G. apply nth_error_None in G. exact G. }
+        specialize (H2 id L).
+        pose proof (cnt_ge1 (isRI id) _ _ _ R) as Q. simpl in Q. rewrite Nat.eqb_refl in Q.
+        specialize (Q eq_refl). unfold nRI in H2. lia.
+  - (* LConnect *)
+    destruct (st_conn s); [discriminate|]. destruct (st_bufmu s); [discriminate|].
+    inversion Hs; subst; clear Hs. eapply inv_same; [exact HI | reflexivity | counts_same].
+  - (* LDisconnect *)
+    destruct (st_conn s); [|discriminate].
+    inversion Hs; subst; clear Hs. eapply inv_same; [exact HI | reflexivity | counts_same].
+Qed.
+
+Theorem inv_reach s : reach s -> inv s.
+Proof.
+  apply invariant_reachable. split; [apply inv_init | intros ? ? ? ? ?; eapply inv_step; eauto].
+Qed.
+
+(** ** at most once *)
+Lemma cnt_split_log id l :
+  cnt (fun x : nat * outcome => Nat.eqb (fst x) id) l = cnt (isLR id) l + cnt (isLT id) l.
+Proof.
+  induction l as [|[i o] l IH]; [reflexivity|]. rewrite !cnt_cons, IH.
+  unfold isLR, isLT; simpl. destruct (Nat.eqb i id), o; simpl; lia.
+Qed.
+
+Lemma outcomes_length s id : length (outcomes s id) = nLR s id + nLT s id.
+Proof. unfold outcomes, nLR, nLT. rewrite map_length. apply cnt_split_log. Qed.
+
+Lemma at_most_once s id : reach s -> length (outcomes s id) <= 1.
+Proof.
+  intros R. destruct (inv_reach s R) as [H1 H2]. rewrite outcomes_length.
+  destruct (get_emit s id) as [e|] eqn:G.
+  - destruct (H1 id e G) as (A & B & C & D & E & F).
+    destruct (e_timer e); simpl in *; destruct (e_called e), (e_timedOut e), (e_intable e); simpl in *; lia.
+  - unfold get_emit in G. apply nth_error_None in G. specialize (H2 id G). lia.
+Qed.
+
+(** ** the buffer mutex (repaired code) *)
+Definition holds (t : tpc) : bool := match t with TPurge | TUnlock => true | _ => false end.
+Definition timers (s : state) : list tpc := map e_timer (st_emits s).
+
+Definition inv2 (s : state) : Prop :=
+  c_oldpurge (st_cfg s) = false
+  /\ (forall id t, nth_error (timers s) id = Some t ->
+        t <> TPanicked /\ (holds t = true -> st_bufmu s = Some id))
+  /\ (forall j, st_bufmu s = Some j -> exists t, nth_error (timers s) j = Some t /\ holds t = true).
+
+Definition is_init_fixed (s : state) : Prop := exists client conn, s = init_state (mkConfig client false) conn.
+Definition reach_fixed := reachable step is_init_fixed.
+
+Lemma reach_fixed_reach s : reach_fixed s -> reach s.
+Proof.
+  induction 1 as [s (c & conn & ->) | s t s' _ IH St].
+  - apply reach_init. now exists (mkConfig c false), conn.
+  - eapply reach_step; eauto.
+Qed.
+
+Lemma map_upd_nth {A B} (f : A -> B) k x l : map f (upd_nth k x l) = upd_nth k (f x) (map f l).
+Proof. revert k; induction l; intros [|k]; simpl; auto. now rewrite IHl. Qed.
+
+Lemma inv2_same s s' :
+  inv2 s -> st_cfg s' = st_cfg s -> timers s' = timers s -> st_bufmu s' = st_bufmu s -> inv2 s'.
+Proof. unfold inv2. intros H A B C. rewrite A, B, C. exact H. Qed.
+
+Lemma inv2_append s s' t :
+  inv2 s -> st_cfg s' = st_cfg s -> timers s' = timers s ++ [t] -> st_bufmu s' = st_bufmu s ->
+  holds t = false -> t <> TPanicked -> inv2 s'.
+Proof.
+  unfold inv2. intros (H0 & H1 & H2) A B C Ht Hp. rewrite A, B, C. split; [exact H0|]. split.
+  - intros id t1 Hn. destruct (Nat.lt_ge_cases id (length (timers s))) as [L|L].
+    + rewrite nth_error_app1 in Hn by exact L. now apply H1.
+    + rewrite nth_error_app2 in Hn by exact L. destruct (id - length (timers s)) as [|[|n]]; simpl in Hn; try discriminate.
+      inversion Hn; subst. split; [exact Hp | congruence].
+  - intros j Hj. destruct (H2 j Hj) as (t1 & Hn & Hh). exists t1. split; [|exact Hh].
+    rewrite nth_error_app1; [exact Hn | apply nth_error_Some; congruence].
+Qed.
+
+(** the timer of [id] moves from t0 to t1; the mutex moves with it *)
+Lemma inv2_timer s s' id t0 t1 :
+  inv2 s -> st_cfg s' = st_cfg s -> nth_error (timers s) id = Some t0 ->
+  timers s' = upd_nth id t1 (timers s) -> t1 <> TPanicked ->
+  (holds t1 = true -> st_bufmu s' = Some id) ->
+  (holds t1 = false -> holds t0 = true -> st_bufmu s' = None) ->
+  (holds t0 = false -> holds t1 = false -> st_bufmu s' = st_bufmu s) ->
+  (holds t0 = false -> holds t1 = true -> st_bufmu s = None) ->
+  inv2 s'.
+Proof.
+  unfold inv2. intros (H0 & H1 & H2) A Hn B Hp Hh1 Hrel Hkeep Hacq. rewrite A, B.
+  pose proof (nth_some_lt _ _ _ Hn) as L.
+  split; [exact H0|]. split.
+  - intros i t Hi. destruct (Nat.eq_dec i id) as [->|Ne].
+    + rewrite nth_upd_same in Hi by exact L. inversion Hi; subst. split; [exact Hp | exact Hh1].
+    + rewrite nth_upd_other in Hi by exact Ne. destruct (H1 i t Hi) as [P Q]. split; [exact P|].
+      intros Ht. specialize (Q Ht).
+      (* i holds the mutex in s, so id does not *)
+      destruct (holds t0) eqn:E0.
+      * destruct (H1 id t0 Hn) as [_ Q0]. specialize (Q0 E0). congruence.
+      * destruct (holds t1) eqn:E1.
+        -- specialize (Hacq eq_refl eq_refl). congruence.
+        -- rewrite (Hkeep eq_refl eq_refl). exact Q.
+  - intros j Hj. destruct (Nat.eq_dec j id) as [->|Ne].
+    + exists t1. rewrite nth_upd_same by exact L. split; [reflexivity|].
+      destruct (holds t1) eqn:E1; [reflexivity|].
+      destruct (holds t0) eqn:E0.
+      * rewrite (Hrel eq_refl eq_refl) in Hj. discriminate.
+      * rewrite (Hkeep eq_refl eq_refl) in Hj. destruct (H2 id Hj) as (t & Hn' & Hh). congruence.
+    + rewrite nth_upd_other by exact Ne.
+      destruct (holds t0) eqn:E0.
+      * destruct (H1 id t0 Hn) as [_ Q0]. specialize (Q0 E0).
+        destruct (holds t1) eqn:E1.
+        -- specialize (Hh1 eq_refl). congruence.
+        -- rewrite (Hrel eq_refl eq_refl) in Hj. discriminate.
+      * destruct (holds t1) eqn:E1.
+        -- specialize (Hh1 eq_refl). congruence.
+        -- rewrite (Hkeep eq_refl eq_refl) in Hj. exact (H2 j Hj).
+Qed.
+
+Lemma timers_get s id e : get_emit s id = Some e -> nth_error (timers s) id = Some (e_timer e).
+Proof. intros G. unfold timers. now apply map_nth_error. Qed.
+
+Lemma timers_put_same_timer s id e e' :
+  get_emit s id = Some e -> e_timer e' = e_timer e ->
+  map e_timer (upd_nth id e' (st_emits s)) = timers s.
+Proof.
+  intros G T. rewrite map_upd_nth, T. apply upd_nth_id. now apply timers_get.
+Qed.
+
+Lemma send_frames_rest s fs s1 :
+  send_frames s fs = Some s1 -> st_cfg s1 = st_cfg s /\ st_bufmu s1 = st_bufmu s.
+Proof.
+  unfold send_frames. destruct (st_conn s || negb (c_client (st_cfg s))).
+  - intros H; inversion H; subst. auto.
+  - destruct (st_bufmu s) eqn:M; [discriminate|]. intros H; inversion H; subst. simpl. auto.
+Qed.
+
+Lemma inv2_step s l s' : inv2 s -> step l s = Some s' -> inv2 s'.
+Proof.
+  intros HI Hs.
+  destruct l as [tmo natt|natt| |id|id|id a|k|id a|k dk| | ]; simpl in Hs.
+  - inversion Hs; subst; clear Hs.
+    eapply inv2_append with (t := if tmo then TSleep else TNone); [exact HI | reflexivity | | reflexivity | |];
+      destruct tmo; try reflexivity; try discriminate; unfold timers; simpl; rewrite map_app; reflexivity.
+  - destruct (send_frames s (frames_of None (st_npk s) natt)) as [s1|] eqn:E; [|discriminate].
+    inversion Hs; subst; clear Hs. pose proof (send_frames_core _ _ _ E) as (A & _ & _).
+    apply send_frames_rest in E as (B & C).
+    eapply inv2_same; [exact HI | exact B | unfold timers; simpl; now rewrite A | exact C].
+  - inversion Hs; subst; clear Hs.
+    eapply inv2_append with (t := TNone); [exact HI | reflexivity | | reflexivity | reflexivity | discriminate].
+    unfold timers; simpl; rewrite map_app; reflexivity.
+  - destruct (get_emit s id) as [e|] eqn:G; [|discriminate].
+    destruct (e_pc e) eqn:P; [| |discriminate].
+    + inversion Hs; subst; clear Hs.
+      eapply inv2_same; [exact HI | reflexivity | | reflexivity].
+      unfold timers at 1; simpl. now apply timers_put_same_timer with (e := e).
+    + destruct (send_frames s (frames_of (Some id) (e_pk e) (e_natt e))) as [s1|] eqn:E; [|discriminate].
+      inversion Hs; subst; clear Hs. pose proof (send_frames_core _ _ _ E) as (A & _ & _).
+      apply send_frames_rest in E as (B & C).
+      eapply inv2_same; [exact HI | exact B | | exact C].
+      unfold timers at 1; simpl. rewrite A. now apply timers_put_same_timer with (e := e).
+  - destruct (get_emit s id) as [e|] eqn:G; [|discriminate].
+    pose proof (timers_get _ _ _ G) as TG. destruct HI as (H0 & H1 & H2).
+    assert (HI : inv2 s) by (split; [exact H0 | split; assumption]).
+    destruct (e_timer e) eqn:T; try discriminate.
+    + destruct (e_called e); inversion Hs; subst; clear Hs;
+        (eapply inv2_timer; [exact HI | reflexivity | exact TG | unfold timers; simpl; rewrite map_upd_nth; reflexivity | ..];
+         simpl; try discriminate; auto).
+    + inversion Hs; subst; clear Hs.
+      eapply inv2_timer; [exact HI | reflexivity | exact TG | unfold timers; simpl; rewrite map_upd_nth; reflexivity | ..];
+         destruct (c_client (st_cfg s)); simpl; try discriminate; auto.
+    + destruct (st_bufmu s) eqn:M; [discriminate|]. inversion Hs; subst; clear Hs.
+      eapply inv2_timer; [exact HI | reflexivity | exact TG | unfold timers; simpl; rewrite map_upd_nth; reflexivity | ..];
+         simpl; try discriminate; auto.
+    + rewrite H0 in Hs. inversion Hs; subst; clear Hs.
+      destruct (H1 id TPurge TG) as [_ Q]. specialize (Q eq_refl).
+      eapply inv2_timer; [exact HI | reflexivity | exact TG | unfold timers; simpl; rewrite map_upd_nth; reflexivity | ..];
+         simpl; try discriminate; auto.
+    + inversion Hs; subst; clear Hs.
+      eapply inv2_timer; [exact HI | reflexivity | exact TG | unfold timers; simpl; rewrite map_upd_nth; reflexivity | ..];
+         simpl; try discriminate; auto.
+    + inversion Hs; subst; clear Hs.
+      eapply inv2_timer; [exact HI | reflexivity | exact TG | unfold timers; simpl; rewrite map_upd_nth; reflexivity | ..];
+         simpl; try discriminate; auto.
+  - destruct (get_emit s id) as [e|] eqn:G; [|discriminate].
+    destruct (onwire s id); [|discriminate].
+    destruct (e_psent e) eqn:P; inversion Hs; subst; clear Hs.
+    + eapply inv2_same; [exact HI | reflexivity | reflexivity | reflexivity].
+    + eapply inv2_same; [exact HI | reflexivity | | reflexivity].
+      unfold timers at 1; simpl. now apply timers_put_same_timer with (e := e).
+  - destruct (nth_error (st_inflight s) k) as [[id a]|] eqn:F; [|discriminate].
+    inversion Hs; subst; clear Hs. eapply inv2_same; [exact HI | reflexivity | reflexivity | reflexivity].
+  - inversion Hs; subst; clear Hs. eapply inv2_same; [exact HI | reflexivity | reflexivity | reflexivity].
+  - destruct (nth_error (st_replies s) k) as [r|] eqn:R; [|discriminate].
+    destruct r as [id a|id a|id a|]; [| | |discriminate].
+    + destruct (get_emit s id) as [e|] eqn:G.
+      * destruct (e_intable e) eqn:IT; inversion Hs; subst; clear Hs.
+        -- eapply inv2_same; [exact HI | reflexivity | | reflexivity].
+           unfold timers at 1; simpl. now apply timers_put_same_timer with (e := e).
+        -- eapply inv2_same; [exact HI | reflexivity | reflexivity | reflexivity].
+      * inversion Hs; subst; clear Hs. eapply inv2_same; [exact HI | reflexivity | reflexivity | reflexivity].
+    + destruct (get_emit s id) as [e|] eqn:G.
+      * destruct (e_timedOut e) eqn:TO; inversion Hs; subst; clear Hs.
+        -- eapply inv2_same; [exact HI | reflexivity | reflexivity | reflexivity].
+        -- eapply inv2_same; [exact HI | reflexivity | | reflexivity].
+           unfold timers at 1; simpl. now apply timers_put_same_timer with (e := e).
+      * inversion Hs; subst; clear Hs. eapply inv2_same; [exact HI | reflexivity | reflexivity | reflexivity].
+    + inversion Hs; subst; clear Hs. eapply inv2_same; [exact HI | reflexivity | reflexivity | reflexivity].
+  - destruct (st_conn s); [discriminate|]. destruct (st_bufmu s) eqn:M; [discriminate|].
+    inversion Hs; subst; clear Hs. eapply inv2_same; [exact HI | reflexivity | reflexivity | simpl; now rewrite M].
+  - destruct (st_conn s); [|discriminate].
+    inversion Hs; subst; clear Hs. eapply inv2_same; [exact HI | reflexivity | reflexivity | reflexivity].
+Qed.
+
+Lemma inv2_reach s : reach_fixed s -> inv2 s.
+Proof.
+  apply invariant_reachable. split.
+  - intros s0 (c & conn & ->). split; [reflexivity|]. split.
+    + intros id t H. destruct id; discriminate.
+    + intros j H. discriminate.
+  - intros ? ? ? ? ?; eapply inv2_step; eauto.
+Qed.
+
+(** ** terminal states *)
+Lemma terminal_spec s : terminalb s = true -> forall l, In l (internal_labels s) -> step l s = None.
+Proof.
+  unfold terminalb. rewrite forallb_forall. intros H l Hl. specialize (H l Hl).
+  unfold enabledb in H. destruct (step l s); [discriminate | reflexivity].
+Qed.
+
+Lemma in_internal_timer s id : id < length (st_emits s) -> In (LTimer id) (internal_labels s).
+Proof.
+  intros L. unfold internal_labels. apply in_or_app; right. apply in_or_app; left.
+  apply in_map, in_seq. lia.
+Qed.
+
+Lemma in_internal_reply s k : k < length (st_replies s) -> In (LReply k true) (internal_labels s).
+Proof.
+  intros L. unfold internal_labels. apply in_or_app; right. apply in_or_app; right. apply in_or_app; left.
+  apply (in_map (fun k => LReply k true)), in_seq. lia.
+Qed.
+
+Lemma nth_error_map_inv {A B} (f : A -> B) l k y :
+  nth_error (map f l) k = Some y -> exists x, nth_error l k = Some x /\ f x = y.
+Proof.
+  revert k; induction l as [|z l IH]; intros [|k] H; simpl in *; try discriminate.
+  - inversion H. eauto.
+  - now apply IH.
+Qed.
+
+Lemma no_mutex_left_held s : reach_fixed s -> terminalb s = true -> st_bufmu s = None.
+Proof.
+  intros R T. destruct (inv2_reach s R) as (H0 & H1 & H2).
+  destruct (st_bufmu s) as [j|] eqn:M; [|reflexivity]. exfalso.
+  destruct (H2 j eq_refl) as (t & Hn & Hh).
+  apply nth_error_map_inv in Hn as (e & G & Et).
+  pose proof (terminal_spec s T (LTimer j) (in_internal_timer s j (nth_some_lt _ _ _ G))) as N.
+  simpl in N. change (nth_error (st_emits s) j) with (get_emit s j) in G. rewrite G, Et in N.
+  destruct t; try discriminate; try (rewrite H0 in N; discriminate).
+Qed.
+
+(** the mutex is only ever held by a timer goroutine that is inside its critical section *)
+Lemma mutex_holder_runs s j :
+  reach_fixed s -> st_bufmu s = Some j -> exists s', step (LTimer j) s = Some s'.
+Proof.
+  intros R M. destruct (inv2_reach s R) as (H0 & H1 & H2).
+  destruct (H2 j M) as (t & Hn & Hh). apply nth_error_map_inv in Hn as (e & G & Et).
+  change (nth_error (st_emits s) j) with (get_emit s j) in G. simpl. rewrite G, Et.
+  destruct t; try discriminate; try rewrite H0; eauto.
+Qed.
+
+Lemma terminal_replies_done s :
+  terminalb s = true -> forall r, In r (st_replies s) -> r = RDone.
+Proof.
+  intros T r Hr. apply In_nth_error in Hr as (k & Hk).
+  pose proof (terminal_spec s T (LReply k true) (in_internal_reply s k (nth_some_lt _ _ _ Hk))) as N.
+  simpl in N. rewrite Hk in N. destruct r as [id a|id a|id a|]; [| | |reflexivity]; exfalso.
+  - destruct (get_emit s id) as [e|]; [destruct (e_intable e)|]; discriminate.
+  - destruct (get_emit s id) as [e|]; [destruct (e_timedOut e)|]; discriminate.
+  - discriminate.
+Qed.
+
+Definition is_to (o : outcome) : bool := match o with OTimeout => true | OReply _ => false end.
+
+Lemma outcomes_timeouts s id : cnt is_to (outcomes s id) = nLT s id.
+Proof.
+  unfold outcomes, nLT. induction (st_log s) as [|[i o] l IH]; [reflexivity|].
+  simpl. rewrite cnt_cons. unfold isLT at 1. simpl.
+  destruct (Nat.eqb i id); simpl; [rewrite cnt_cons, IH; destruct o; reflexivity | exact IH].
+Qed.
+
+Lemma exactly_once s id e :
+  reach_fixed s -> terminalb s = true -> get_emit s id = Some e -> e_timer e <> TNone ->
+  (e_called e = true /\ e_timedOut e = false /\ exists a, outcomes s id = [OReply a])
+  \/ (e_called e = false /\ e_timedOut e = true /\ outcomes s id = [OTimeout]).
+Proof.
+  intros R T G NT.
+  pose proof (no_mutex_left_held s R T) as M.
+  destruct (inv2_reach s R) as (H0 & H1 & _).
+  destruct (H1 id _ (timers_get _ _ _ G)) as [NP _].
+  destruct (inv_reach s (reach_fixed_reach s R)) as [I1 _].
+  destruct (I1 id e G) as (A & B & C & D & E & F).
+  pose proof (terminal_spec s T (LTimer id) (in_internal_timer s id (get_lt _ _ _ G))) as N.
+  simpl in N. rewrite G in N.
+  assert (RI0 : nRI s id = 0).
+  { unfold nRI. apply cnt_zero_forall. intros r Hr. now rewrite (terminal_replies_done s T r Hr). }
+  pose proof (outcomes_length s id) as OL. pose proof (outcomes_timeouts s id) as OT.
+  destruct (e_timer e) eqn:Et; try congruence; try discriminate.
+  - destruct (e_called e); discriminate.
+  - rewrite M in N. discriminate.
+  - rewrite H0 in N. discriminate.
+  - (* TSkipped *) left. simpl in *.
+    destruct (e_called e), (e_timedOut e); simpl in *; try lia.
+    split; [reflexivity|]. split; [reflexivity|].
+    destruct (outcomes s id) as [|o [|o' l]]; simpl in OL; try lia.
+    rewrite cnt_cons, cnt_nil in OT. destruct o as [a|]; simpl in OT; [eauto | lia].
+  - (* TFired *) right. simpl in *.
+    destruct (e_called e), (e_timedOut e); simpl in *; try lia.
+    split; [reflexivity|]. split; [reflexivity|].
+    destruct (outcomes s id) as [|o [|o' l]]; simpl in OL; try lia.
+    rewrite cnt_cons, cnt_nil in OT. destruct o as [a|]; simpl in OT; [lia | reflexivity].
+Qed.
